@@ -441,3 +441,59 @@ func checkSeparatorFlagCleared(p *Prog, r *Result, rule string) int {
 	}
 	return n
 }
+
+// R01j: a here-document's body is written after the line that holds its operator, from the printer's queue of pending
+// bodies. Print accepts a file, a statement, a command or a word as the root, and any of them can hold a here-document
+// (a pipeline printed on its own, an argument word with a command substitution). So every path through Print that
+// ends in success passes flushHeredocs: a body still queued when Print returns is simply missing from the output.
+func checkPrintFlushesHeredocs(p *Prog, r *Result, rule string) int {
+	pkg := p.Pkg("syntax")
+	info := pkg.TypesInfo
+	fd := p.FuncDecl("syntax", "Printer.Print")
+	flush := lookupFunc(pkg, "Printer.flushHeredocs")
+	if fd == nil || flush == nil {
+		r.Undecided(rule, "syntax.(Printer).Print", token.NoPos, "anchors not found")
+		return 0
+	}
+	g := NewFGraph(info, fd.Body, nil)
+	// the nodes that write the tree: calls into the printer other than reset and the flushes
+	n := 0
+	for _, b := range g.Blocks {
+		for i, nd := range b.Nodes {
+			es, ok := nd.(*ast.ExprStmt)
+			if !ok {
+				continue
+			}
+			c, ok := es.X.(*ast.CallExpr)
+			if !ok {
+				continue
+			}
+			callee := calleeOf(info, c)
+			if callee == nil || callee == flush || callee.Pkg() != pkg.Types {
+				continue
+			}
+			sig := callee.Type().(*types.Signature)
+			if sig.Recv() == nil || recvNamed(sig) != "Printer" {
+				continue
+			}
+			switch callee.Name() {
+			case "reset", "flushComments", "newline", "newlines":
+				continue
+			}
+			n++
+			key := fmt.Sprintf("%s#after %s the pending here-documents are flushed", funcKey("syntax", fd), callee.Name())
+			// every path from here to a return passes the flush, unless it returns an error
+			ok2, _ := g.MustPass(b, i, g.Exit, func(m ast.Node) bool {
+				for _, cc := range nodeCalls(m) {
+					if calleeOf(info, cc) == flush {
+						return true
+					}
+				}
+				return false
+			}, nil)
+			r.Check(ok2, rule, key, nd.Pos(), "every path from this call to Print's return passes flushHeredocs",
+				fmt.Sprintf("Print can return after %s without flushing the pending here-document bodies: a command or word printed on its own that holds a here-document comes out as `cat <<EOF | tr a-z A-Z` with no body, which does not parse", callee.Name()))
+		}
+	}
+	return n
+}
